@@ -103,7 +103,7 @@ func RewriteClause(decls map[ast.PredicateSym]*ast.Decl, clause ast.Clause) ast.
 				premises = append(premises, delayNegAtom[i])
 				toRemove = append([]int{i}, toRemove...)
 			}
-			for i := range toRemove {
+			for _, i := range toRemove {
 				negAtomTail := []ast.Term{}
 				varsTail := []map[ast.Variable]bool{}
 				if i+1 < len(delayNegAtom) {
@@ -115,5 +115,8 @@ func RewriteClause(decls map[ast.PredicateSym]*ast.Decl, clause ast.Clause) ast.
 			}
 		}
 	}
+	// Negated atoms whose variables never got bound stay in the clause (at the end), so that the
+	// rule check sees them instead of the literal being silently dropped.
+	premises = append(premises, delayNegAtom...)
 	return ast.Clause{Head: clause.Head, HeadTime: clause.HeadTime, Premises: premises, Transform: clause.Transform}
 }
